@@ -239,6 +239,33 @@ def _merge(a, b):
         a["sample_smt2"] = b["sample_smt2"]
 
 
+def run_standin(suite, tier, seed, prop, open_ids):
+    """A bounded stand-in (native run of the real code on an enumerated domain). Never counted as proved."""
+    import subprocess
+    res = {"stand_in": suite, "label": "bounded-search(enumerated domain of standins/native.py:%s)" % suite, "violations": [],
+           "known": [], "error": None}
+    try:
+        p = subprocess.run(["/venv/bin/python", os.path.join(VERIF, "standins", "native.py"), suite, tier, str(seed)],
+                           capture_output=True, text=True, timeout=3000, cwd=VERIF)
+        d = json.loads(p.stdout.strip().splitlines()[-1])
+    except Exception as exc:
+        res["error"] = "stand-in %s did not run: %r" % (suite, exc)
+        return res
+    res.update({"evaluations": d["evaluations"], "distinct": d["distinct"], "seconds": d["seconds"]})
+    if d.get("error"):
+        res["error"] = "stand-in %s crashed: %s" % (suite, d["error"][-600:])
+    for n, f in enumerate(d["failures"]):
+        name = "%s/stand-in:%s/native-failure" % (prop, suite)
+        entry = {"name": name, "verdict": "refuted", "label": res["label"], "scenario": f["scenario"], "observed": f["observed"],
+                 "required": f["required"], "native": True, "finding": f.get("finding"), "model": None, "path": "", "unit": "stand-in:" + suite}
+        if f.get("finding") in open_ids:
+            entry["verdict"] = "known"
+            res["known"].append(entry)
+        else:
+            res["violations"].append(entry)
+    return res
+
+
 def load_known_findings():
     path = os.path.join(VERIF, "known_findings.json")
     with open(path) as fh:
@@ -283,9 +310,12 @@ def run_check(prop, units, tier, seed, level, technique_text, trusted_base, repl
             r["error"] = "unit produced zero obligations for %s (engine fault)" % prop
 
     extra = []
-    if extra_checks:
-        for fn in extra_checks:
-            extra.append(fn(tier, seed))
+    native_witness = None
+    for suite in (extra_checks or []):
+        e = run_standin(suite, tier, seed, prop, {f["id"] for f in open_f})
+        extra.append(e)
+        if e.get("violations") and native_witness is None:
+            native_witness = e["violations"][0]
 
     errors = [r for r in results if r["error"]] + [e for e in extra if e.get("error")]
     undecided = [r for r in results if r["undecided"]]
@@ -311,7 +341,14 @@ def run_check(prop, units, tier, seed, level, technique_text, trusted_base, repl
         violations += 1
         rp = os.path.join(VERIF, "replays", "%s-%s.json" % (prop, _slug(o["name"])))
         replay_result = None
-        if replay_fn is not None and o.get("scenario") is not None:
+        if native_witness is not None and not o.get("native"):
+            # the bounded stand-in of this property found a concrete failing input on this tree: it is the replay
+            replay_result = {"reproduced": True, "native_witness": native_witness.get("scenario"),
+                             "observed": native_witness.get("observed"), "required": native_witness.get("required"),
+                             "replay_cmd": "/venv/bin/python standins/native.py --replay <this file>"}
+        elif o.get("native"):
+            replay_result = {"reproduced": True, "observed": o.get("observed"), "required": o.get("required")}
+        if replay_result is None and replay_fn is not None and o.get("scenario") is not None:
             try:
                 replay_result = replay_fn(o["scenario"])
             except Exception as exc:
